@@ -293,6 +293,15 @@ MUTS = [
     ('H13', 'preserve', 'C04', G, "            if nbits_unread > 0:\n", "            if 0 < nbits_unread:\n"),
     ('H14', 'preserve', 'C04', G, '@renamefinish nbits_unread n_unread', ''),
     ('H15', 'preserve', 'C04', G, "            elif nbits_unread < 0:\n                raise PyBufrKitError(", "            elif 0 > nbits_unread:\n                raise PyBufrKitError("),
+    # ---- stage M (w5-codersrc, round 3): process_members, the generated descriptor type -----------------------
+    ('M1', 'change', 'C01', K, "                    if not (1 <= X <= 9 or X == 31):  # skipping", "                    if not (1 <= X <= 8 or X == 31):  # skipping"),
+    ('M2', 'change', 'C01', K, "                state.data_not_present_count -= 1\n", "                state.data_not_present_count -= 2\n"),
+    ('M3', 'change', 'C01', K, "            if state.nbits_of_new_refval and member_type is ElementDescriptor:", "            if state.nbits_of_new_refval and member_type is OperatorDescriptor:"),
+    ('M4', 'change', 'C01', K, "                self.process_skipped_local_descriptor(state, bit_operator, member)\n                continue\n",
+     "                self.process_skipped_local_descriptor(state, bit_operator, member)\n"),
+    ('M5', 'preserve', 'C01', K, "            if state.bitmap_definition_state != BITMAP_NA:\n                self.process_bitmap_definition(state, bit_operator, member)",
+     "            if not state.bitmap_definition_state == BITMAP_NA:\n                self.process_bitmap_definition(state, bit_operator, member)"),
+    ('M6', 'unsupported', 'C01', D, "        super(ReplicationDescriptor, self).__init__(id_)\n        self.members = members", "        super(ReplicationDescriptor, self).__init__(id_)\n        self.items = members"),
 ]
 
 
